@@ -125,6 +125,18 @@ impl Property for C19 {
     fn required_counters(&self) -> Vec<&'static str> {
         vec!["built", "nested_branch", "any_routes_compared", "matched_some", "postfix_subjects"]
     }
+    fn directed(&self) -> Vec<Case> {
+        // candidate paths longer than 64 KiB (owned captures keep offsets into their own copy)
+        vec![
+            Case { expr: vec![Tok::Zom { lazy: false }], others: vec![], paths: vec!["a".repeat(65_536), "a".repeat(70_000)] },
+            Case { expr: vec![Tok::One, Tok::Zom { lazy: false }], others: vec![], paths: vec!["a".repeat(65_536)] },
+            Case {
+                expr: vec![Tok::Zom { lazy: false }, Tok::Sep, Tok::Zom { lazy: false }, Tok::lit(".rs")],
+                others: vec![],
+                paths: vec![format!("{}/{}.rs", "d".repeat(66_000), "f".repeat(10))],
+            },
+        ]
+    }
     fn decode(&self, t: &mut Tape) -> Case {
         let cfg = GenCfg::default();
         let expr = gen_expr(t, &cfg);
